@@ -1,4 +1,4 @@
-use bevy::prelude::*;
+use bevy::{ecs::system::RunSystemOnce, prelude::*};
 use bevy_renet::renet::{transport::NetcodeClientTransport, DefaultChannel, RenetClient};
 
 use crate::{
@@ -94,6 +94,9 @@ fn verify_client_connected(
     if !tracker.host_promotion_in_progress {
         cmd.add(|world: &mut World| {
             info!("Starting new client session and requesting initial sync.");
+            // component changes queued while there was no session (a client that worked on while its link was down) leave
+            // ahead of the request: the host applies them first and its snapshot is built on top of them, not under them
+            world.run_system_once(react_on_changed_components);
             world.resource_mut::<ClientPresendInitialSync>().messages =
                 full_sync::build_full_sync(world).unwrap_or_default();
             let mut client = world.resource_mut::<RenetClient>();
